@@ -19,7 +19,7 @@ Spec == Init /\ [][Next]_vars
 
 B2  == Translate(b, t)
 Typed     == ph = 3 => r.k \in DocKinds(a.k, b.k)
-Symmetric == ph = 3 => Canon(r) = Canon(InterGeneric(B2, a))
+Symmetric == ph = 3 => SameSet(r, InterGeneric(B2, a))
 InBoth    == ph = 3 => (r.k # "None" => Subset(r, a) /\ Subset(r, B2))
 ResultSane == ph = 3 => (r.k = "Polyhedron" => BodySane(r)) /\ (r.k = "Polygon" => PolygonSane(r))
 \* maximality on probes: a half-lattice point of a's bounding box that lies in both operands lies in the result
@@ -30,5 +30,5 @@ VolMonotone == ph = 3 =>
                  ((r.k = "Polyhedron" /\ a.k = "Polyhedron" /\ Small(r.vs, 30)) => RLeq(Measures(r).vol, Measures(a).vol))
 Touch == IF r.k = "None" THEN "-" ELSE
             IF \A P \in Vertices(r) : PosClass(P, a) # "Interior" /\ PosClass(P, B2) # "Interior" THEN "boundary" ELSE "overlap"
-Emit == ph < 3 \/ PrintT(ToJson([a |-> a, b |-> B2, s |-> S, exp |-> r, cls |-> <<a.k, b.k, r.k, Touch>>, m |-> Measures(r)]))
+Emit == ph < 3 \/ PrintT(ToJson([a |-> a, b |-> B2, s |-> S, exp |-> r, doc |-> DocKinds(a.k, b.k), cls |-> <<a.k, b.k, r.k, Touch>>, m |-> Measures(r)]))
 =============================================================================
